@@ -74,9 +74,15 @@ PROPS["C02"] = {
 PROPS["C03"] = {
     "rule": "reachable processor states (C01 generator without cleanup) in which every delivered observation is classified by an "
             "independent accept predicate; unacceptable ones must leave aggregation map, store and outbound channel untouched, "
-            "acceptable ones must be recorded; non-trivial = case contains a rejected mutated observation and an accepted sibling",
-    "assumptions": ["accept predicate: 65-byte signature recovers over the carried 32-byte hash to the claimed 20-byte address, which is in the applicable set (entry snapshot if the node observed the digest, else current set)"],
-    "units": [U("TestVerif_C03_Observations", PROC, R(2500), R(20000, shards=16, timeout=1200))],
+            "acceptable ones must be recorded; sequences of signed heartbeats / re-observation requests, each valid or carrying one mutation (bit flips, "
+            "other signer, claimed address of another member, other type's prefix, no prefix, raw-digest signature, signed length 30..40 around the 34-byte "
+            "floor, undecodable body), with an optional guardian-set change in between; non-trivial = case contains a rejected mutated message and an accepted sibling",
+    "assumptions": ["accept predicate: 65-byte signature recovers over the carried 32-byte hash to the claimed 20-byte address, which is in the applicable set (entry snapshot if the node observed the digest, else current set)",
+                    "heartbeats / requests: prefix+body >= 34 bytes, signature over keccak(own prefix || body) recovers to the claimed address (BytesToAddress of the field), which is in the set passed in, body decodes; at the 15-node cap only the bound is asserted",
+                    "the libp2p Run loop is not started; the two verifiers are the only state-changing entry points it calls for these message types"],
+    "units": [U("TestVerif_C03_Observations", PROC, R(2500), R(20000, shards=16, timeout=1200)),
+              U("TestVerif_C03_P2P", "./pkg/p2p", R(3000), R(30000, shards=16, timeout=1200)),
+              U("TestVerif_C03_HeartbeatTable", "./pkg/p2p", R(300), R(3000, shards=4, timeout=1200))],
 }
 
 PROPS["C13"] = {
